@@ -3,6 +3,7 @@
 package vaa
 
 import (
+	"sync/atomic"
 	"bytes"
 	"encoding/binary"
 	"encoding/hex"
@@ -221,6 +222,77 @@ func TestVerifC04(t *testing.T) {
 	}
 	// Keccak-256 alone: rows "kk" (zz_verif_keccak_test.go), evaluated by the Gallina function lib/Keccak.v inside Coq
 	verifKeccakRows(o, r)
+	// the digest is a function of the VAA alone also when several goroutines compute digests at once (processor loop, admin RPC,
+	// notification goroutine all call SigningMsg / HexDigest): concurrent callers on distinct VAAs, each result compared with the
+	// reference computed beforehand with x/crypto/sha3 directly; a call that does not return is reported, not waited for
+	o.emit(verifC04Concurrent(r))
+}
+
+func verifC04Concurrent(r *vrng) map[string]interface{} {
+	const workers = 8
+	per := 1500
+	if verifThorough() {
+		per = 12000
+	}
+	type job struct {
+		v   *VAA
+		ref []byte
+	}
+	jobs := make([][]job, workers)
+	for w := 0; w < workers; w++ {
+		for i := 0; i < 24; i++ {
+			v, _, _ := verifRandVAA(r, r.below(3), 1+r.below(200), false)
+			jobs[w] = append(jobs[w], job{v, vkeccak(vkeccak(v.SerializeBody()))})
+		}
+	}
+	var wrong, panics, finished int64
+	var first atomic.Value
+	done := make(chan struct{}, workers)
+	for w := 0; w < workers; w++ {
+		go func(w int) {
+			defer func() { done <- struct{}{} }()
+			for i := 0; i < per; i++ {
+				j := jobs[w][i%len(jobs[w])]
+				func() {
+					defer func() {
+						if x := recover(); x != nil {
+							atomic.AddInt64(&panics, 1)
+							first.CompareAndSwap(nil, fmt.Sprintf("SigningMsg panicked under concurrent callers: %v", x))
+						}
+					}()
+					var got []byte
+					if i%3 == 2 {
+						got, _ = hex.DecodeString(j.v.HexDigest())
+					} else {
+						d := j.v.SigningMsg()
+						got = d.Bytes()
+					}
+					if !bytes.Equal(got, j.ref) {
+						atomic.AddInt64(&wrong, 1)
+						first.CompareAndSwap(nil, fmt.Sprintf("SigningMsg under concurrent callers returned %x for a VAA whose digest is %x (body %x)", got, j.ref, j.v.SerializeBody()))
+					}
+				}()
+			}
+			atomic.AddInt64(&finished, 1)
+		}(w)
+	}
+	deadline := time.After(60 * time.Second)
+	stuck := false
+	for k := 0; k < workers && !stuck; k++ {
+		select {
+		case <-done:
+		case <-deadline:
+			stuck = true
+		}
+	}
+	mon := []string{}
+	if x := first.Load(); x != nil {
+		mon = append(mon, fmt.Sprintf("%v [%d wrong digests, %d panics in %d concurrent calls]", x, atomic.LoadInt64(&wrong), atomic.LoadInt64(&panics), workers*per))
+	}
+	if stuck {
+		mon = append(mon, fmt.Sprintf("SigningMsg calls of concurrent callers did not return within 60 s (%d of %d workers finished)", atomic.LoadInt64(&finished), workers))
+	}
+	return map[string]interface{}{"k": "conc", "workers": workers, "calls": workers * per, "mon": mon}
 }
 
 func verifErrKind(err error) int {
